@@ -267,6 +267,9 @@ def finish(mod, args, parts, digests, inconclusive, t0, nsh):
                 m["reproduced"] = m["reproduced"] or v["reproduced"]
     lines, viol_lines, known_hits, groups = [], [], {}, {}
     os.makedirs(os.path.join(VERIF, "replays"), exist_ok=True)
+    for fn in os.listdir(os.path.join(VERIF, "replays")):       # stale witnesses of earlier runs of this property
+        if fn.startswith(prop + "-") and fn.endswith(".json"):
+            os.remove(os.path.join(VERIF, "replays", fn))
     unknown = 0
     for k, v in sorted(merged.items()):
         vi = core.Viol(k[0], k[1], k[2], None, None, None)
